@@ -101,7 +101,9 @@ pub fn hex<'a>() -> impl chumsky::Parser<'a, &'a str, usize, Err<'a>> + Clone {
             text::digits(16)
                 .at_least(1)
                 .to_slice()
-                .map(|s: &str| usize::from_str_radix(s, 16).unwrap()),
+                .try_map(|s: &str, span| {
+                    usize::from_str_radix(s, 16).map_err(|e| Rich::custom(span, e))
+                }),
         )
         .padded()
         .labelled("hexidecimal number")
@@ -618,6 +620,14 @@ fn test_hex_parser() {
         },
         TestCase {
             string: "  123AA ",
+            result: Err(()),
+        },
+        TestCase {
+            string: "0xffffffffffffffff",
+            result: Ok(usize::MAX),
+        },
+        TestCase {
+            string: "0x10000000000000000",
             result: Err(()),
         },
     ];
